@@ -35,7 +35,7 @@ ASSUMPTIONS = [
     'encoding names are compared literally after lower-casing, except BOM results which are compared as codecs (utf_16_le == utf-16-le)',
     'XML declarations are written without white space around "=" (the sniffer is documented as "not overly exact")',
 ]
-MIN_EVENTS = {'quick': {'evaluations': 8000, 'rows.bytes': 3000, 'oracle.streampos': 200},
+MIN_EVENTS = {'quick': {'evaluations': 8000, 'rows.bytes': 3000, 'oracle.streampos': 200, 'rows.after-history': 5000},
               'thorough': {'evaluations': 8000, 'rows.bytes': 3000, 'oracle.streampos': 2000}}
 
 MEDIA = [
@@ -94,7 +94,7 @@ NULLLOG.addHandler(logging.NullHandler())
 NULLLOG.propagate = False
 
 
-def run_row(ctx, encutils, row, record=True):
+def run_row(ctx, encutils, row, record=True, poison=None):
     media, charset, xmlname, xml, metaname, meta, metacs, body, as_bytes = row
     doc = xml + (body % meta)
     has_response = media is not None
@@ -112,6 +112,17 @@ def run_row(ctx, encutils, row, record=True):
             'xml': xmlname, 'meta': metaname, 'body': body}
     ctx.count('evaluations')
     ctx.count('rows.bytes' if as_bytes else 'rows.text')
+    if poison is not None:
+        # history: an earlier, unrelated document that ends inside a construct (the answer for this row must not depend on it)
+        ctx.count('rows.after-history')
+        case['history'] = poison
+        try:
+            for p in poison:
+                encutils.getMetaInfo(p, log=NULLLOG)
+                encutils.getEncodingInfo(Resp('text/html', None), p, log=NULLLOG)
+                encutils.detectXMLEncoding(p, log=NULLLOG)
+        except Exception:
+            pass
     try:
         info = encutils.getEncodingInfo(resp, arg, log=NULLLOG)
     except Exception as e:
@@ -138,6 +149,10 @@ def run_row(ctx, encutils, row, record=True):
         if len(doc) < 4 and exp['cls'] in (M.XMLAPP, M.HTML):
             feats.append('xml-sniffed-doc.shorter-than-4')
         ctx.violation('table', case, {'differs': bad, 'got': got, 'expected': dict(exp, mismatch=exp_mismatch)}, features=feats)
+
+
+POISON = ['<html><script>var x = "<meta', '<html><style>a{', '<html><!-- open', '<meta http-equiv="Content-Type" content="text/html; charset=koi8-r"', '<a href="', '<![CDATA[ x',
+          '<?xml version="1.0" encoding="koi8-r"', '<html><textarea>', '<html><title>t', '<script><!--', '<p class=', '<html><head><meta http-equiv="Content-Type" content="text/html; charset=cp437"><script>']
 
 
 def rows():
@@ -238,6 +253,9 @@ def run_worker(ctx):
     n = 0
     for i, row in ctx.share(rows()):
         run_row(ctx, encutils, row)
+        if i % 3 == 0:
+            rng = ctx.rng('poison', i)
+            run_row(ctx, encutils, row, poison=rng.sample(POISON, rng.randint(1, 2)))
         if i % 997 == 0:
             ctx.sample({'row': row[:3] + (row[4], row[8]), 'doc': (row[3] + row[7] % row[5])[:120]})
         n += 1
@@ -251,7 +269,7 @@ def replay(ctx, case):
         doc = case['doc']
         # re-split is not needed: run_row rebuilds doc from parts, so pass it through as xml part
         row = (case['media'], case['charset'], case.get('xml', 'x'), doc, case.get('meta', 'x'), '', case.get('meta_charset'), '%s', case['bytes'])
-        run_row(ctx, encutils, row)
+        run_row(ctx, encutils, row, poison=case.get('history'))
     elif kind == 'sniff':
         fp = io.StringIO(case['doc'])
         fp.seek(case['pos'])
